@@ -177,12 +177,34 @@ func VC03_Errors() {
 	}
 }
 
-//verif: prop=C03 bounds="generic slice constructors at two instantiations each: Objects[vObj|*vObjP], ObjectValues[vObjP], Stringers[vStr|*vStr]; 0..2 elements with symbolic payload"
+//verif: prop=C03 bounds="generic slice constructors at two instantiations each: Objects[vObj|*vObjP], ObjectValues[vObjP], Stringers[vStr|*vStr]; 0..2 elements with symbolic payload; Stringers over 3 pointer elements with every subset of them nil"
 func VC03_Generics() {
 	n := vrt.Choice("len", 3)
 	v := vrt.Int64("v")
 	r := &vRecEnc{}
-	switch vrt.Choice("ctor", 5) {
+	switch vrt.Choice("ctor", 6) {
+	case 5: // pointer elements, any subset of them nil: a nil Stringer is the text <nil>, and the others are what they are
+		t := "t" + vrt.String("t", 1)
+		texts := []string{t, "u", "w"}
+		mask := vrt.Choice("nils", 8)
+		s := make([]*vStr, 3)
+		for i := range s {
+			if mask&(1<<uint(i)) == 0 {
+				s[i] = &vStr{texts[i]}
+			}
+		}
+		Stringers("k", s).AddTo(r)
+		el, ok := r.array("k")
+		ok = ok && len(el) == 3 && len(r.calls) == 1
+		for i := 0; ok && i < 3; i++ {
+			want := texts[i]
+			if s[i] == nil {
+				want = "<nil>"
+			}
+			g, isStr := el[i].val.(string)
+			ok = isStr && g == want
+		}
+		vrt.Assert("Stringers[*vStr]-every-element-delivered-nil-as-<nil>", ok)
 	case 0:
 		s := []vObj{{v}, {2}}[:n]
 		Objects("k", s).AddTo(r)
